@@ -104,6 +104,9 @@ func genC14(t *rapid.T) c14Case {
 	}
 	c.Reply = rapid.SampledFrom([]string{"success", "success", "failure", "other"}).Draw(t, "reply")
 	c.Var = rapid.IntRange(0, 7).Draw(t, "var")
+	if c.Reply == "failure" {
+		c.Var = rapid.IntRange(0, len(peer.SASLFailures)-1).Draw(t, "failureForm")
+	}
 	return c
 }
 
@@ -290,7 +293,7 @@ func isAlnum(s string) bool {
 
 var c14 = vh.Define(&vh.Def[c14Case]{
 	Property: "C14", Name: "sasl",
-	Rule: "local parts over everything NewJid accepts (ASCII, odd punctuation incl. & and NUL, non-ASCII, astral), secrets as arbitrary byte strings (alphanumeric, random bytes incl. invalid UTF-8, NUL-adjacent, XML metacharacters, all XML-legal text), password or token credential, server mechanism lists of 0-6 names drawn with repetition from known, unknown, wrong-case and empty names (with the matching mechanism inserted at a generated position in half of the cases), server reply success / failure (3 forms) / another element (8 forms); in a third of the cases the list differs before and after STARTTLS, or the same Client made an earlier successful connection against another list and reconnects; in an eighth of the single-connection cases the write of the <auth/> element is faulted in a wrapped Transport (0 bytes and no error, an error, or half of the bytes and an error) and Connect must then fail; a real Client connects to the scripted peer over TCP; oracle on the peer transcript: mechanism == the one the credential supports and it was advertised, base64-decoded payload == NUL local NUL secret byte for byte; no common mechanism => nothing after the stream header and a permanent ConnError; <failure/> => permanent error; anything but <success/> => Connect fails; non-trivial = secret or local part not purely alphanumeric, or the mechanism list is not exactly [PLAIN]",
+	Rule: "local parts over everything NewJid accepts (ASCII, odd punctuation incl. & and NUL, non-ASCII, astral), secrets as arbitrary byte strings (alphanumeric, random bytes incl. invalid UTF-8, NUL-adjacent, XML metacharacters, all XML-legal text), password or token credential, server mechanism lists of 0-6 names drawn with repetition from known, unknown, wrong-case and empty names (with the matching mechanism inserted at a generated position in half of the cases), server reply success / failure (13 forms: every RFC 6120 condition, with and without text, none, an undefined one) / another element (8 forms); in a third of the cases the list differs before and after STARTTLS, or the same Client made an earlier successful connection against another list and reconnects; in an eighth of the single-connection cases the write of the <auth/> element is faulted in a wrapped Transport (0 bytes and no error, an error, or half of the bytes and an error) and Connect must then fail; a real Client connects to the scripted peer over TCP; oracle on the peer transcript: mechanism == the one the credential supports and it was advertised, base64-decoded payload == NUL local NUL secret byte for byte; no common mechanism => nothing after the stream header and a permanent ConnError; <failure/> => permanent error; anything but <success/> => Connect fails; non-trivial = secret or local part not purely alphanumeric, or the mechanism list is not exactly [PLAIN]",
 	Quick: 3000, Thorough: 24000, Journal: true,
 	Gen: genC14, Run: runC14,
 })
